@@ -31,6 +31,7 @@ PLANS["C01"] = {
     "quick": [
         lp("S0k-default", "prodl1", "S0k", "default", weight=3),
         lp("S0q1-k1", "prodl1", "S0q1", "k1", weight=4),
+        lp("Sbq-k1", "prodl1", "Sbq", "k1", weight=4),
         lp("T-k1", "prod", "T", "k1", weight=3, opts={"fam": "T", "cfg": "k1", "tscale": 30}),
         lp("Sillq-k1x", "prodl1", "Sillq", "k1x", weight=1),
         lp("S0mk-san", "sanl1", "S0mk", "default", weight=2),
@@ -46,7 +47,7 @@ PLANS["C01"] = {
         lp("Sill-k1", "prodl1", "Sill", "k1", weight=1),
         lp("S0mk-san-k1x", "sanl1", "S0mk", "k1x", weight=4),
     ],
-    "bounds": {"quick": "S0 (n<=2,m<=2) x default config; S0c, T x all configurations within one deviation of the default (K<=1)",
+    "bounds": {"quick": "S0k (n<=2,m<=2) x default config; S0q1, Sbq (bound-shape-rich), T x all configurations within one deviation of the default (K<=1); C04 adds the direct-simplex sub-lattice kdir and warm starts from every basis",
                "thorough": "S1,S3,SX x default; S0c,T x K<=2; full configuration product on the first 1200 indices of S0c"},
     "assumptions": LP_ASSUME,
 }
@@ -57,7 +58,7 @@ for pid, title in (("C02", "INFEASIBLE only with an exact Farkas certificate"),
     PLANS[pid]["title"] = title
 PLANS["C03"]["quick"] = PLANS["C01"]["quick"] + [lp("S0mk-prod-default-ladder", "prod", "S0mk", "default", weight=2)]
 PLANS["C03"]["thorough"] = PLANS["C01"]["thorough"] + [lp("S0c-prod-default-ladder", "prod", "S0c", "default", weight=6)]
-PLANS["C04"]["quick"] = PLANS["C01"]["quick"] + [lp("S0q1-kdir", "prodl1", "S0q1", "kdir", weight=2, crash_props=["C17", "C04"]), lp("T-kdir", "prod", "T", "kdir", weight=2, crash_props=["C17", "C04"], opts={"fam": "T", "cfg": "kdir", "tscale": 30}),
+PLANS["C04"]["quick"] = PLANS["C01"]["quick"] + [lp("S0q1-kdir", "prodl1", "S0q1", "kdir", weight=2, crash_props=["C17", "C04"]), lp("Sbq-kdir", "prodl1", "Sbq", "kdir", weight=2, crash_props=["C17", "C04"]), lp("T-kdir", "prod", "T", "kdir", weight=2, crash_props=["C17", "C04"], opts={"fam": "T", "cfg": "kdir", "tscale": 30}),
                                                 fam("warm-allbases-S0q1", "prodl1", "basis", {"fam": "S0q1", "files": 0, "verify": 0, "warm": 1}, weight=2, crash_props=["C17", "C04"]),
                                                 fam("warm-allbases-S1q", "prodl1", "basis", {"fam": "S1q", "files": 0, "verify": 0, "warm": 1}, weight=2, crash_props=["C17", "C04"])]
 PLANS["C04"]["thorough"] = PLANS["C01"]["thorough"] + [lp("S0c-kdir", "prodl1", "S0c", "kdir", weight=4, crash_props=["C17", "C04"]), lp("T-kdir", "prod", "T", "kdir", weight=2, crash_props=["C17", "C04"], opts={"fam": "T", "cfg": "kdir", "tscale": 30}),
